@@ -41,6 +41,10 @@ func newMySQLUndoUpdateExecutor(sqlUndoLog undo.SQLUndoLog) *mySQLUndoUpdateExec
 }
 
 func (m *mySQLUndoUpdateExecutor) ExecuteOn(ctx context.Context, dbType types.DBType, conn *sql.Conn) error {
+	if m.sqlUndoLog.BeforeImage == nil || len(m.sqlUndoLog.BeforeImage.Rows) == 0 {
+		// the statement changed no row: nothing to compensate
+		return nil
+	}
 	ok, err := m.baseExecutor.dataValidationAndGoOn(ctx, conn)
 	if err != nil {
 		return err
